@@ -55,7 +55,7 @@ CLAIMED = {
         text="Lean theorems: for every service of the table, every code byte and tail, a 0x7F frame after k in-time 0x78 frames ends the request "
              "negative with exactly that code and name (k arbitrary, by induction); 0x78 never surfaces for any arrival list; callbacks once per 0x78 "
              "before the next wait; delivery through the decorator keeps the verdict. Tied by a call-level differential suite over all 80 entry points x all "
-             "256 codes on the real client.",
+             "256 codes on the real client. Call level for every service family (Props/C06Call.callWith_negative): whatever a client method would do with a positive reply, a negative-response frame of the request's service with any code but 0x78, after any number of in-time pending replies, makes the call raise the negative outcome with exactly that code - also inside a suppress block that waits for an NRC.",
         design_ref='DESIGN.md §3 C06',
         technique='Lean 4 proof (induction on number of pending replies) + exhaustive-code differential suite over all entry points'),
     'C08': dict(
@@ -70,7 +70,7 @@ CLAIMED = {
              "the override sees it set), None at once with no read when not waiting for an NRC, None for silence/positive and the NRC for a negative reply when waiting "
              "(after any number of 0x78, by induction), services without subfunction unchanged, suppression cleared on every exit and later steps identical to never "
              "having entered. Tied by random well-nested histories on the real client (real with-blocks left normally and by exception), op by op against udsdrv, plus an "
-             "independent frame construction.",
+             "independent frame construction. Call level for every service family (Props/C09Call): inside a block a method built on callWith returns None at once with exactly the bit-7 frame sent when not waiting; None after silence or an in-time positive reply when waiting; a service without sub-function is unaffected.",
         design_ref='DESIGN.md §3 C09',
         technique='Lean 4 proof (induction over schedules / history steps) + differential history suite'),
     'C10': dict(
